@@ -229,7 +229,9 @@ MANIFEST = {
     "note": "Partial / assumed: render-at-max/min is claimed inside C01's domain (see C01 note) and for values at or above the structural "
     "minimum, as the property says; a group containing a ProgressBar that is not last is the known finding progressbar-no-newline (F23): its "
     "measurement is unsound.  `text_at_max_not_wrapped` assumes `\\n` is the only line-break character of the text (str.splitlines, used by "
-    "the measurement, also breaks at FS/GS/RS/NEL/LS/PS; wrap does not).  Table.__rich_measure__ is modelled here (not in C07).  Outside the "
-    "model: zero-column tables (AssertionError in ratio_distribute), Columns(width=...), str renderables, styles.  Trusted base as C01.",
+    "the measurement, also breaks at FS/GS/RS/NEL/LS/PS; wrap does not).  Table.__rich_measure__ is modelled here (`tableRichMeasure` of Model/Layout.lean; C07's Model/Table.lean has gained its own "
+    "`Table.richMeasure` since, compared per table by ./check C07).  Outside the "
+    "model: zero-column tables (the driver's static domain asks for at least one column; their AssertionError in ratio_distribute was a "
+    "defect of rich 9.10.0 as found, repaired by fix 1d61bac), Columns(width=...), str renderables, styles.  Trusted base as C01.",
     "design_ref": "DESIGN.md section 7, C01/C07/C08/C09",
 }
